@@ -240,6 +240,7 @@ class SimSocket:
         self.recv_hook = recv_hook
         self.fail_next_send = None   # errno to raise once
         self.send_hook = None        # fn(addr): may raise OSError (injected syscall failure)
+        self.unwritable = None       # fn() -> True when select() shall report the socket as not writable this time
         net.bind(addr, name, node, self._on_datagram)
 
     # -- network side
@@ -318,4 +319,4 @@ class SelectShim:
 
     @staticmethod
     def select(r, w, x, timeout=None):
-        return [s for s in r if s.readable()], list(w), []
+        return [s for s in r if s.readable()], [s for s in w if not (s.unwritable is not None and s.unwritable())], []
